@@ -140,14 +140,195 @@ Proof.
     rewrite (unmemo_mono _ _ _ Hm E1) in E2. discriminate.
 Qed.
 
+Definition fine_res {B} (s : st) (r : res (B * st)) : Prop :=
+  match r with Ok (_, s') => mono s s' | Err _ => True | _ => False end.
+
 Lemma mapM_fine {A B} (G : A -> st -> res (B * st)) (l : list A) :
-  (forall x s, In x l -> match G x s with Ok (_, s') => mono s s' | Err _ => True | _ => False end) ->
-  forall s, match mapM_st G l s with Ok (_, s') => mono s s' | Err _ => True | _ => False end.
+  forall s, (forall x s1, In x l -> mono s s1 -> fine_res s1 (G x s1)) -> fine_res s (mapM_st G l s).
 Proof.
-  induction l as [|x t IH]; intros HG s; cbn [mapM_st]; [apply extends_refl|].
-  pose proof (HG x s (or_introl eq_refl)) as Hx. unfold bind. destruct (G x s) as [[y s1]| | |]; try exact Hx; try contradiction.
-  assert (HG' : forall x0 s0, In x0 t -> match G x0 s0 with Ok (_, s') => mono s0 s' | Err _ => True | _ => False end).
-  { intros x0 s0 Hin. apply HG. right. exact Hin. }
-  specialize (IH HG' s1). destruct (mapM_st G t s1) as [[ys s2]| | |]; try exact IH; try contradiction.
+  induction l as [|x t IH]; intros s HG; cbn [mapM_st]; [apply extends_refl|].
+  pose proof (HG x s (or_introl eq_refl) (extends_refl _)) as Hx. unfold bind, fine_res in *.
+  destruct (G x s) as [[y s1]| | |]; try exact Hx; try contradiction.
+  assert (HG' : forall x0 s2, In x0 t -> mono s1 s2 -> fine_res s2 (G x0 s2)).
+  { intros x0 s2 Hin Hm. apply HG; [right; exact Hin|eapply extends_trans; eassumption]. }
+  specialize (IH s1 HG'). unfold fine_res in IH. destruct (mapM_st G t s1) as [[ys s2]| | |]; try exact IH; try contradiction.
   eapply extends_trans; eassumption.
 Qed.
+
+Lemma depth_in_list x l : In x l -> (depth x <= fold_right (fun x a => Nat.max (depth x) a) O l)%nat.
+Proof.
+  induction l as [|y t IH]; intros Hin; [destruct Hin|]. cbn [fold_right].
+  destruct Hin as [->|Hin]; [lia|specialize (IH Hin); lia].
+Qed.
+Lemma depth_in_dict (k : bytes) x (d : list (bytes * prim)) :
+  In (k, x) d -> (depth x <= fold_right (fun kv a => Nat.max (depth (snd kv)) a) O d)%nat.
+Proof.
+  induction d as [|y t IH]; intros Hin; [destruct Hin|]. cbn [fold_right].
+  destruct Hin as [->|Hin]; [cbn [snd]; lia|specialize (IH Hin); lia].
+Qed.
+
+Section Total.
+  Variable fetch : fetch_t.
+  Variable g : graph.
+  Hypothesis fetch_total : forall i gn st ln, ok_or_err (fetch i gn st ln).
+  (** the references that can ever be memoised, and the deepest source object *)
+  Variable U : list ref.
+  Variable D : nat.
+  Hypothesis U_closed : forall r v r2, In r U -> resolve g r = Ok v -> has_ref v r2 -> In r2 U.
+  Hypothesis D_bound : forall r v, resolve g r = Ok v -> (depth v <= D)%nat.
+
+  Lemma entry_fine F (kv : bytes * prim) s : fine_res s (F (snd kv) s) -> fine_res s (on_entry F kv s).
+  Proof.
+    unfold on_entry, bind, fine_res. destruct (F (snd kv) s) as [[v s1]| | |]; auto.
+  Qed.
+
+  Lemma clone_total fuel : forall v s, (forall r, has_ref v r -> In r U) ->
+    (depth v + missL U s * (D + 2) < fuel)%nat -> fine_res s (clone_prim fetch g fuel v s).
+  Proof.
+    induction fuel as [|f IH]; intros v s0 Hu Hf; [lia|].
+    assert (Hent : forall d, (forall k x r, In (k, x) d -> has_ref x r -> In r U) ->
+               (fold_right (fun kv a => Nat.max (depth (snd kv)) a) O d + missL U s0 * (D + 2) < f)%nat ->
+               fine_res s0 (mapM_st (on_entry (clone_prim fetch g f)) d s0)).
+    { intros d Hd Hfd. apply mapM_fine. intros [k x] s1 Hin Hm. apply entry_fine. cbn [snd]. apply IH.
+      - intros r Hr. eapply Hd; eassumption.
+      - pose proof (depth_in_dict k x d Hin) as Hdx. pose proof (missL_mono U _ _ Hm) as Hms.
+        pose proof (Nat.mul_le_mono_r _ _ (D + 2) Hms) as Hmm. lia. }
+    destruct v; cbn [clone_prim]; try (unfold fine_res; apply extends_refl).
+    - (* PArr *)
+      cbn [depth] in Hf.
+      assert (Hl : fine_res s0 (mapM_st (clone_prim fetch g f) l s0)).
+      { apply mapM_fine. intros x s1 Hin Hm. apply IH.
+        - intros r Hr. apply Hu. eapply hr_arr; eassumption.
+        - pose proof (depth_in_list x l Hin) as Hdx. pose proof (missL_mono U _ _ Hm) as Hms.
+          pose proof (Nat.mul_le_mono_r _ _ (D + 2) Hms) as Hmm. lia. }
+      unfold bind, fine_res in *. destruct (mapM_st (clone_prim fetch g f) l s0) as [[l' s1]| | |]; auto.
+    - (* PDict *)
+      cbn [depth] in Hf.
+      assert (Hl := Hent d (fun k x r Hin Hr => Hu r (hr_dict _ _ _ _ Hin Hr)) ltac:(lia)).
+      unfold bind, fine_res in *. destruct (mapM_st (on_entry (clone_prim fetch g f)) d s0) as [[d' s1]| | |]; auto.
+    - (* PRef *)
+      destruct (lookup (memo s0) (id, gen)) as [x|] eqn:El; [unfold fine_res; apply extends_refl|].
+      unfold bind. destruct (resolve g (id, gen)) as [obj| | |] eqn:Er; try exact I;
+        try (unfold resolve in Er; destruct (g_find g (fst (id, gen))); discriminate).
+      set (s1 := mkSt (((id, gen), (next s0, 0)) :: memo s0) (next s0 + 1) (out s0)).
+      assert (Hin : In (id, gen) U) by (apply Hu; constructor).
+      assert (Hm1 : mono s0 s1).
+      { intros r x Hl. cbn [memo s1 lookup]. destruct (ref_eqb (id, gen) r) eqn:E; [|exact Hl].
+        apply ref_eqb_eq in E. subst r. rewrite El in Hl. discriminate. }
+      assert (Hdec : (missL U s1 < missL U s0)%nat).
+      { apply (missL_dec U s0 s1 (id, gen) Hm1 Hin El). cbn [memo s1 lookup]. rewrite ref_eqb_refl. discriminate. }
+      assert (Hrec : fine_res s1 (clone_prim fetch g f obj s1)).
+      { apply IH.
+        - intros r Hr. eapply U_closed; eassumption.
+        - pose proof (D_bound _ _ Er) as Hd. cbn [depth] in Hf.
+          assert (H1 : (missL U s1 + 1 <= missL U s0)%nat) by lia.
+          pose proof (Nat.mul_le_mono_r _ _ (D + 2) H1) as H2. rewrite Nat.mul_add_distr_r, Nat.mul_1_l in H2. lia. }
+      unfold fine_res in *. destruct (clone_prim fetch g f obj s1) as [[c s2]| | |]; auto.
+      cbn [memo]. eapply extends_trans; eassumption.
+    - (* PStream *)
+      cbn [depth] in Hf. unfold bind. pose proof (fetch_total id gen start len) as Hft.
+      destruct (fetch id gen start len) as [x| | |]; try exact I; try contradiction.
+      assert (Hl := Hent d (fun k x0 r Hin Hr => Hu r (hr_stream _ _ _ _ _ _ _ _ Hin Hr)) ltac:(lia)).
+      unfold fine_res in *. destruct (mapM_st (on_entry (clone_prim fetch g f)) d s0) as [[d' s1]| | |]; auto.
+    - (* PStreamData *)
+      cbn [depth] in Hf.
+      assert (Hl := Hent d (fun k x0 r Hin Hr => Hu r (hr_sdata _ _ _ _ _ Hin Hr)) ltac:(lia)).
+      unfold bind, fine_res in *. destruct (mapM_st (on_entry (clone_prim fetch g f)) d s0) as [[d' s1]| | |]; auto.
+  Qed.
+End Total.
+
+(** ---- the concrete bound used by the runners: [fuel_for] always suffices *)
+Lemma has_ref_refs_of v r : has_ref v r -> In r (refs_of v).
+Proof.
+  intros H. induction H as [i gn|l x r Hx Hr IH|d k x r Hx Hr IH|d i gn st ln k x r Hx Hr IH|d y k x r Hx Hr IH]; cbn [refs_of].
+  - left. reflexivity.
+  - apply in_flat_map. exists x. split; assumption.
+  - apply in_flat_map. exists (k, x). split; assumption.
+  - apply in_flat_map. exists (k, x). split; assumption.
+  - apply in_flat_map. exists (k, x). split; assumption.
+Qed.
+
+Lemma missL_le L s : (missL L s <= length L)%nat.
+Proof. unfold missL. induction L as [|r t IH]; cbn [filter length]; [lia|]. destruct (unmemo s r); cbn [length]; lia. Qed.
+
+Lemma graph_depth_bound g r v : resolve g r = Ok v -> (depth v <= graph_depth g)%nat.
+Proof.
+  unfold resolve. destruct (g_find g (fst r)) as [v0|] eqn:E; [|discriminate]. intros H. inversion H; subst v0.
+  apply g_find_In in E. unfold graph_depth. induction g as [|kv t IH]; [destruct E|]. cbn [fold_right].
+  destruct E as [->|E]; [cbn [snd]; lia|specialize (IH E); lia].
+Qed.
+
+Lemma graph_refs_closed g r v r2 : resolve g r = Ok v -> has_ref v r2 -> In r2 (graph_refs g).
+Proof.
+  unfold resolve. destruct (g_find g (fst r)) as [v0|] eqn:E; [|discriminate]. intros H Hr. inversion H; subst v0.
+  apply g_find_In in E. unfold graph_refs. apply in_flat_map. exists (fst r, v). split; [exact E|]. cbn [snd].
+  apply has_ref_refs_of. exact Hr.
+Qed.
+
+Theorem import_total fetch g roots fuel :
+  (forall i gn st ln, ok_or_err (fetch i gn st ln)) ->
+  (fuel_for g (map (fun r => PRef (fst r) (snd r)) roots) <= fuel)%nat ->
+  ok_or_err (import_roots fetch g fuel roots st0).
+Proof.
+  intros Hft Hfuel.
+  set (U := graph_refs g ++ roots). set (D := graph_depth g).
+  assert (HU : forall r v r2, In r U -> resolve g r = Ok v -> has_ref v r2 -> In r2 U).
+  { intros r v r2 _ Hres Hr. apply in_or_app. left. eapply graph_refs_closed; eassumption. }
+  assert (Hfin : fine_res st0 (import_roots fetch g fuel roots st0)).
+  { unfold import_roots. apply mapM_fine. intros [i gn] s1 Hin _. cbn [fst snd].
+    apply (clone_total fetch g Hft U D HU (graph_depth_bound g)).
+    - intros r Hr. inversion Hr; subst. apply in_or_app. right. exact Hin.
+    - cbn [depth]. pose proof (missL_le U s1) as Hm. pose proof (Nat.mul_le_mono_r _ _ (D + 2) Hm) as Hmm.
+      unfold fuel_for in Hfuel.
+      assert (Hlen : length (flat_map refs_of (map (fun r => PRef (fst r) (snd r)) roots)) = length roots).
+      { clear. induction roots as [|[a b] t IH]; cbn; [reflexivity|rewrite IH; reflexivity]. }
+      rewrite Hlen in Hfuel.
+      assert (HU_len : length U = (length (graph_refs g) + length roots)%nat) by (unfold U; apply app_length).
+      set (D' := Nat.max (graph_depth g) (fold_right (fun v a => Nat.max (depth v) a) O (map (fun r => PRef (fst r) (snd r)) roots))) in *.
+      assert (HD : (D <= D')%nat) by (unfold D, D'; lia).
+      assert (H1 : (S (length U) * (D + 2) <= S (length U) * (D' + 2))%nat) by (apply Nat.mul_le_mono_l; lia).
+      rewrite <- HU_len in Hfuel. cbn [Nat.mul] in H1. lia. }
+  unfold fine_res, ok_or_err in *. destruct (import_roots fetch g fuel roots st0) as [[a b]| | |]; auto.
+Qed.
+
+(** ---- the order before the repair (memoise after the recursive call) does not terminate on a cycle *)
+Fixpoint clone_old (g : graph) (fuel : nat) (v : prim) (s : st) {struct fuel} : res (prim * st) :=
+  match fuel with
+  | O => OutOfFuel
+  | S f =>
+    match v with
+    | PRef i gn =>
+        match lookup (memo s) (i, gn) with
+        | Some r' => Ok (PRef (fst r') (snd r'), s)
+        | None =>
+            do obj <- resolve g (i, gn);
+            do (c, s2) <- clone_old g f obj s;
+            let id := next s2 in
+            Ok (PRef id 0, mkSt (((i, gn), (id, 0)) :: memo s2) (id + 1) ((id, c) :: out s2))
+        end
+    | PArr l => do (l', s1) <- mapM_st (clone_old g f) l s; Ok (PArr l', s1)
+    | PDict d => do (d', s1) <- mapM_st (on_entry (clone_old g f)) d s; Ok (PDict d', s1)
+    | _ => Ok (v, s)
+    end
+  end.
+
+Definition self_loop : graph := [(1, PDict [([78], PRef 1 0)])].     (* 1 0 obj << /N 1 0 R >> endobj *)
+
+Theorem old_order_refuted : forall fuel, clone_old self_loop fuel (PRef 1 0) st0 = OutOfFuel.
+Proof.
+  assert (H : forall fuel s, memo s = [] ->
+            clone_old self_loop fuel (PRef 1 0) s = OutOfFuel /\
+            clone_old self_loop fuel (PDict [([78], PRef 1 0)]) s = OutOfFuel).
+  { induction fuel as [|f IH]; intros s Hm; [split; reflexivity|].
+    destruct (IH s Hm) as [IH1 IH2]. split.
+    - cbn [clone_old]. rewrite Hm. cbn [lookup]. change (resolve self_loop (1, 0)) with (Ok (A := prim) (PDict [([78], PRef 1 0)])).
+      cbn [bind]. rewrite IH2. reflexivity.
+    - cbn [clone_old]. cbn [mapM_st]. unfold on_entry at 1. cbn [snd fst]. unfold bind at 3. rewrite IH1. reflexivity. }
+  intros fuel. apply H. reflexivity.
+Qed.
+
+(** … while the repaired order copies the same graph in two steps *)
+Example self_loop_imported :
+  import_roots (fun _ _ _ _ => Err E_REF) self_loop 5 [(1, 0)] st0
+  = Ok ([PRef 1 0], mkSt [((1, 0), (1, 0))] 2 [(1, PDict [([78], PRef 1 0)])]).
+Proof. vm_compute. reflexivity. Qed.
